@@ -6,6 +6,7 @@ import (
 	"fmt"
 	"os"
 	"strings"
+	"sync"
 
 	"gvc/gvc"
 )
@@ -72,6 +73,12 @@ func main() {
 				c.NoContracts = map[string]bool{"*": true}
 			}
 			specs = append(specs, gvc.UnitSpec{Fn: fn, Opt: gvc.Options{UseRequires: true}, Cfg: &c, Kind: "sweep"})
+		}
+		var mu sync.Mutex
+		gvc.Progress = func(r *gvc.UnitResult) {
+			mu.Lock()
+			fmt.Fprintln(os.Stderr, "done:", r.Summary())
+			mu.Unlock()
 		}
 		res := gvc.RunUnits(p, specs, cfg)
 		tot, bad := 0, 0
